@@ -94,7 +94,7 @@ class FakeSock:
 
 
 def run_transfer(script, handler, options, mode="octet", default_timeout=2, max_timeout=30,
-                 max_retries=1, max_block_size=65464, wrap=0, filename="f", context=None):
+                 max_retries=1, max_block_size=65464, wrap=0, filename="f", context=None, shared_log=None):
     """
     Run one real _TftpReadRequest to completion under the fake socket.
     script: list of (t_ticks, addr, datagram).  handler(filename, client, server, context) -> file object.
@@ -102,7 +102,7 @@ def run_transfer(script, handler, options, mode="octet", default_timeout=2, max_
     ("logexc", class)
     """
     clock = [0.0]
-    log = []
+    log = shared_log if shared_log is not None else []
     shim = types.SimpleNamespace(**{k: getattr(real_socket, k) for k in dir(real_socket) if not k.startswith("__")})
     shim.socket = lambda **k: FakeSock(list(script), clock, log)
     old = (S.socket, S.time)
